@@ -5,6 +5,10 @@ before/after each invocation, the announced `Fixed:` files, the exit code in the
 an audit-hook log of every write-open / remove / rename.  Oracle: bytes changed <=> announced <=>
 fixed-at-least-one result; a file without a fix-capable failure is byte-identical after fix; scan,
 scan-stdin and --list-files leave every snapshot identical and never write-open an existing file.
+
+Second family (cases N:i): the same oracle for files with CR-LF, lone-CR and mixed line endings (a clean
+file must stay byte-identical whatever its line endings), and for the API entry points fix_path /
+fix_string under both return-code schemes (files_fixed / was_fixed must say exactly what changed).
 """
 import os
 import sys
@@ -21,6 +25,7 @@ ASSUMPTIONS = [
     "a --log-file target would be excluded; none is requested here",
 ]
 N_CASES = 30000
+N_N = 18000
 
 
 def universe_hash():
@@ -28,14 +33,18 @@ def universe_hash():
 
 
 def plan(tier, seed, complete=False):
+    from vf.prng import R, mix
+
     if complete or tier == "thorough":
         idx = list(range(N_CASES))
+        nidx = list(range(N_N))
     else:
-        from vf.prng import R, mix
-
-        idx = R(mix("C10", seed)).sample(N_CASES, 2000)
+        idx = R(mix("C10", seed)).sample(N_CASES, 1600)
+        nidx = R(mix("C10N", seed)).sample(N_N, 900)
     return {
-        "items": [f"K:{i}" for i in idx], "zones": {"file-set cases": {"universe": N_CASES, "run": len(idx)}}, "exhaustive": False,
+        "items": [f"K:{i}" for i in idx] + [f"N:{i}" for i in nidx],
+        "zones": {"file-set cases": {"universe": N_CASES, "run": len(idx)}, "line-ending x entry-point (CLI fix, API fix_path, API fix_string) x scheme cases": {"universe": N_N, "run": len(nidx)}},
+        "exhaustive": False,
         "rule": "case i = 1-3 files drawn from Z1/Z3 by index arithmetic (clean, fixable and unfixable-failing mixes), scheme default/minimal by parity; "
         "distinct = cases in which at least one file was changed by fix",
     }
@@ -58,6 +67,41 @@ def witness_item(k):
 
 def replay_item(rp):
     return {"key": str(rp["case"]), "case": rp["detail"]["case"]}
+
+
+def _case_id(x):
+    """'K:12' / 'N:12' / 12 (older witnesses) -> (family, index)"""
+    if isinstance(x, int):
+        return "K", x
+    x = str(x)
+    if ":" in x:
+        a, b = x.split(":")[:2]
+        return a, int(b)
+    return "K", int(x)
+
+
+ENDINGS = ("crlf", "cr", "mixed", "lf", "crlf-no-final", "crlf")
+ENTRIES = ("cli", "api-path", "api-string", "cli")
+
+
+def n_case(i):
+    files, _ = case_files(i * 13 + 5)
+    if i % 3 == 0:  # make sure clean files are frequent: they are the ones that must not be touched
+        files[sorted(files)[0]] = ["# Title\n\nclean text\n", "clean\n\n- a\n- b\n", "# T\n\n```text\ncode\n```\n\nline one\nline two\n"][(i // 3) % 3]
+    ending = ENDINGS[i % len(ENDINGS)]
+    out = {}
+    for j, (n, d) in enumerate(files.items()):
+        if ending in ("crlf", "crlf-no-final"):
+            d = d.replace("\n", "\r\n")
+            if ending == "crlf-no-final" and d.endswith("\r\n"):
+                d = d[:-2]
+        elif ending == "cr":
+            d = d.replace("\n", "\r")
+        elif ending == "mixed":
+            parts = d.split("\n")
+            d = "".join(x + ("\r\n" if k % 2 == 0 else "\n") for k, x in enumerate(parts[:-1])) + parts[-1]
+        out[n] = d
+    return out, ("minimal" if (i // 2) % 2 else "default"), ending, ENTRIES[(i // len(ENDINGS)) % len(ENTRIES)]
 
 
 _AUDIT = []
@@ -86,9 +130,12 @@ def run_items(items, job):
     R = PL.Result()
     for it in items:
         if isinstance(it, dict):
-            key, ci = it["key"], it["case"]
+            key, (fam, ci) = it["key"], _case_id(it["case"])
         else:
-            key, ci = it, int(it.split(":")[1])
+            key, (fam, ci) = it, _case_id(it)
+        if fam == "N":
+            _run_n(app, sb, fixset, R, key, ci)
+            continue
         files, scheme = case_files(ci)
         R.evals += 1
         if any(d == "" for d in files.values()):
@@ -181,3 +228,101 @@ def run_items(items, job):
         elif len(R.samples) < 2 and changed_any:
             R.samples.append({"case": key, "files": {n: d[:80] for n, d in files.items()}, "announced": sorted(announced), "rc": o.rc, "scheme": scheme})
     return R.as_dict()
+
+
+def _run_n(app, sb, fixset, R, key, ci):
+    from pymarkdown.api import PyMarkdownApi, PyMarkdownApiException
+
+    files, scheme, ending, entry = n_case(ci)
+    R.evals += 1
+    sb.clear_files()
+    paths = [sb.write_bytes(n, d.encode("utf-8")) for n, d in files.items()]
+    v = set()
+    detail = {"case": f"N:{ci}", "files": files, "scheme": scheme, "line_endings": ending, "entry": entry}
+    before = sb.snapshot()
+    fixable = {}
+    for n, p in zip(files, paths):
+        o = app.scan_files([p])
+        if o.watchdog or o.tokenization_error or o.plugin_error:
+            R.skip("scan-error(C01/C07)")
+            return
+        fixable[n] = any(f[3] in fixset for f in o.failures)
+    if sb.snapshot() != before:
+        v.add("scan-modified-filesystem")
+    R.see("line_endings", ending)
+    R.see("entries", entry + "/" + scheme)
+    tagp = f"{entry}:"
+    if entry == "cli":
+        o = app.fix_files(paths, extra=["--return-code-scheme", scheme])
+        R.count("fix_invocations")
+        k = app.fix_error_kind(o)
+        if k:
+            R.skip("fix-" + k + "(C15)")
+            return
+        announced = {os.path.basename(p) for p in o.fixed}
+        want = (0 if scheme == "minimal" else 3) if announced else 0
+        if o.rc != want:
+            v.add(f"exit-code:{scheme}:announced={bool(announced)}:rc={o.rc}")
+        tagp = ""
+    elif entry == "api-path":
+        try:
+            a = PyMarkdownApi().log_critical_and_above().set_string_property("mode.return_code_scheme", scheme)
+            res = a.fix_path(sb.cwd)
+            R.count("fix_invocations")
+            R.count("api_fix_calls")
+        except PyMarkdownApiException:
+            R.skip("fix-api-exception(C15)")
+            return
+        announced = {os.path.basename(p) for p in res.files_fixed}
+    else:
+        n0 = sorted(files)[0]
+        text = files[n0]
+        try:
+            a = PyMarkdownApi().log_critical_and_above().set_string_property("mode.return_code_scheme", scheme)
+            res = a.fix_string(text)
+            R.count("fix_invocations")
+            R.count("api_fix_calls")
+        except PyMarkdownApiException:
+            R.skip("fix-api-exception(C15)")
+            return
+        R.count("files_judged")
+        norm = lambda t: t.replace("\r\n", "\n").replace("\r", "\n")  # noqa: E731  (no file: text-mode newline translation is not a change)
+        ch = norm(res.fixed_file) != norm(text)
+        if ch and not res.was_fixed:
+            v.add("api-string:changed-but-not-announced")
+        if res.was_fixed and not ch:
+            v.add("api-string:announced-but-text-identical")
+        if ch and not fixable[n0]:
+            v.add("api-string:changed-without-fixable-failure")
+        after = sb.snapshot()
+        if after != before:
+            v.add("api-string:modified-filesystem" + (":tmp" if any(x.startswith("tmp:") for x in set(after) ^ set(before)) else ""))
+        if ch:
+            R.distinct.add(PL.mix("C10N", ci) & 0xFFFFFFFFFFFF)
+        if v:
+            detail["fixed_file"] = res.fixed_file
+            detail["was_fixed"] = bool(res.was_fixed)
+            R.viol.append([key, ";".join(sorted(v)), detail])
+        return
+    after = sb.snapshot()
+    changed_any = False
+    for n in files:
+        R.count("files_judged")
+        ch = after.get("cwd:" + n) != before.get("cwd:" + n)
+        changed_any = changed_any or ch
+        if ch and n not in announced:
+            v.add(tagp + "changed-but-not-announced")
+        if n in announced and not ch:
+            v.add(tagp + "announced-but-bytes-identical")
+        if ch and not fixable[n]:
+            v.add(tagp + "changed-without-fixable-failure")
+    extra_files = [k2 for k2 in after if k2 not in before]
+    if extra_files:
+        v.add(tagp + "fix-left-files-behind:" + ("tmp" if any(x.startswith("tmp:") for x in extra_files) else "cwd"))
+        detail["left_behind"] = extra_files[:5]
+    detail["announced"] = sorted(announced)
+    if changed_any:
+        R.distinct.add(PL.mix("C10N", ci) & 0xFFFFFFFFFFFF)
+    if v:
+        detail["after"] = {n: sb.read(n).decode("utf-8", "replace") for n in files}
+        R.viol.append([key, ";".join(sorted(v)), detail])
